@@ -38,7 +38,7 @@ LIB_CONFIGS = {
 }
 WRAP_SYMS = "malloc,calloc,realloc,strdup,free,vasprintf,newlocale,duplocale,freelocale"
 WRAP_LINK = ["-Wl," + ",".join("--wrap=" + s for s in WRAP_SYMS.split(","))]
-WRAP_IO_LINK = ["-Wl,--wrap=read,--wrap=write,--wrap=open,--wrap=close"]
+WRAP_IO_LINK = ["-Wl,--wrap=read,--wrap=write"]
 
 FALLBACK_SOURCES = ["arraylist.c", "debug.c", "json_c_version.c", "json_object.c", "json_object_iterator.c",
                     "json_tokener.c", "json_util.c", "json_visit.c", "linkhash.c", "printbuf.c", "random_seed.c",
